@@ -67,9 +67,6 @@ pub struct Stream {
     pub fields: Vec<(usize, Field)>,
     pub typed_enc: usize,
     pub raw_enc: usize,
-    /// Per frame: absolute spans of the bodies that are a single bare Recon token at the top
-    /// level (number, identifier, boolean, blob), for typed decoders only.
-    pub bare_tokens: Vec<Vec<(usize, usize)>>,
 }
 
 impl Stream {
@@ -106,7 +103,7 @@ pub fn expected_of(fam: &Fam, m: &Msg) -> Option<Msg> {
 
 pub fn build(fam: &Fam, items: &[Item]) -> Option<Stream> {
     let mut dst = BytesMut::new();
-    let mut st = Stream { bytes: vec![], ends: vec![], expected: vec![], fields: vec![], typed_enc: 0, raw_enc: 0, bare_tokens: vec![] };
+    let mut st = Stream { bytes: vec![], ends: vec![], expected: vec![], fields: vec![], typed_enc: 0, raw_enc: 0 };
     for (i, it) in items.iter().enumerate() {
         let before = dst.len();
         let typed = fam.encode(&it.m, it.typed, &mut dst);
@@ -118,24 +115,6 @@ pub fn build(fam: &Fam, items: &[Item]) -> Option<Stream> {
         let flen = dst.len() - before;
         assert!(flen > 0, "harness: encoder wrote nothing for {:?}", it.m);
         let lay = layout(fam, &it.m, flen);
-        // The scalar bodies are the last Body fields of the frame, in order.
-        let scalars = it.m.scalars();
-        let bodies: Vec<&Field> = lay.iter().filter(|f| f.kind == FK::Body).collect();
-        let mut spans = vec![];
-        if !fam.raw_dec {
-            for (sc, f) in scalars.iter().zip(&bodies[bodies.len() - scalars.len()..]) {
-                let w = sc.wire();
-                assert!(w.len() == f.width, "harness: body field does not match the scalar");
-                if let Ok(text) = std::str::from_utf8(&w) {
-                    let lead = text.len() - text.trim_start().len();
-                    let t = text.trim();
-                    if !t.is_empty() && !t.starts_with(['"', '@', '{']) {
-                        spans.push((before + f.off + lead, before + f.off + lead + t.len()));
-                    }
-                }
-            }
-        }
-        st.bare_tokens.push(spans);
         for f in lay {
             st.fields.push((i, Field { off: f.off + before, ..f }));
         }
@@ -290,19 +269,13 @@ fn short(m: &Msg) -> String {
 fn verify_prefix(fam: &Fam, st: &Stream, upto: usize, complete: bool, run: &Run) -> Option<(String, String)> {
     let name = fam.name;
     for j in 0..upto {
-        // A read boundary strictly inside a bare top-level token of this frame's body is the
-        // trigger of a defect of the Recon stream parser underneath every typed decoder (see
-        // NOTES.md, finding 1); it gets its own signature so that it does not hide anything else.
-        let split_token = st.bare_tokens[j].iter().any(|(s, e)| run.reads.iter().any(|r| s < r && r < e));
         let kind = st.expected[j].kind();
         // One signature per (family, message kind) for "frame j decodes to what was encoded and
         // consumes exactly its own bytes"; how it failed (wrong message / error / nothing /
         // consumed too much or too little) is in the detail, because one defect shows as several
         // of these depending on what follows in the stream.
         let sig = |law: &str| {
-            if split_token {
-                format!("split-bare-token:{}", name)
-            } else if matches!(law, "wrong-msg" | "err" | "missing" | "over-consume" | "under-consume") {
+            if matches!(law, "wrong-msg" | "err" | "missing" | "over-consume" | "under-consume") {
                 format!("roundtrip:{}@{}", name, kind)
             } else {
                 format!("{}:{}@{}", law, name, kind)
